@@ -153,9 +153,10 @@ func decodeCode(s *rlp.Stream) (interface{}, error) {
 }
 
 func decodeAddress(s *rlp.Stream) (interface{}, error) {
-	var result []byte
+	// exactly the 20 bytes of an address, as in the Address field of the log
+	var result common.Address
 	err := s.Decode(&result)
-	return common.BytesToAddress(result), err
+	return result, err
 }
 
 // decodeEvents decode an interface which contains an *types.Event
@@ -185,9 +186,10 @@ func decodeUInt32(s *rlp.Stream) (interface{}, error) {
 }
 
 func decodeHash(s *rlp.Stream) (interface{}, error) {
-	var result []byte
+	// exactly the 32 bytes of a hash
+	var result common.Hash
 	err := s.Decode(&result)
-	return common.BytesToHash(result), err
+	return result, err
 }
 
 func decodeString(s *rlp.Stream) (interface{}, error) {
